@@ -23,6 +23,8 @@ Inductive case :=
 | KTblIdx (rows : Z) (bytes : list Z) (obs : option (nat * Z))
 | KLnk (size_len : Z) (bytes : list Z) (obs : option Cores.lres)
 | KOverlay (secs : list (Z * Z)) (file_len off size : Z)
+(* a count reported by a module against the bound the property demands for it *)
+| KCount (bound observed : Z)
 | KElf (exe : bool) (segs : list phdr) (secs : list shdr) (rva : Z) (obs : option Z).
 
 Definition oz_eqb (a b : option Z) : bool :=
@@ -70,6 +72,7 @@ Definition clres_eqb (a b : option Cores.lres) : bool :=
 Definition check_case (k : case) : bool :=
   match k with
   | KRun _ _ _ => true
+  | KCount _ _ => true
   | KUleb b obs => lres_eqb (uleb128 b) obs
   | KSleb b obs => lres_eqb (sleb128 b) obs
   | KVarU b obs => ozn_eqb (var_uint b) obs
@@ -99,5 +102,6 @@ Definition check_case (k : case) : bool :=
 Definition spec_case (k : case) : bool :=
   match k with
   | KRun r d t => r && d && t
+  | KCount bound observed => observed <=? bound
   | _ => true
   end.
